@@ -70,7 +70,7 @@ func (g *Generator[V]) Draw(t *T, label string) V {
 }
 
 func (g *Generator[V]) value(t *T) V {
-	i := t.s.beginGroup(g.str, true)
+	i := t.s.beginGroup(g.String(), true)
 	v := g.impl.value(t)
 	t.s.endGroup(i, false)
 	return v
